@@ -46,6 +46,11 @@ var routePool = []route{
 	{"/v/:b/t", "*", []string{"b"}},
 	{"/p/:a/:c/:e/:y", "GET", []string{"a", "c", "e", "y"}},
 	{"/s/deep/er", "POST", nil},
+	// the same path under MethodAll and under an exact method: which of the two
+	// is registered first, and whether requests were served in between, varies
+	{"/s", "*", nil},
+	{"/v/:b", "*", []string{"b"}},
+	{"/u/:x", "*", []string{"x"}},
 }
 
 var allNames = []string{"a", "b", "c", "d", "e", "x", "y", "unused"}
@@ -84,6 +89,9 @@ type behaviour struct {
 	panicAt  int // 0 none, 1 before writing, 2 after the status, 3 after a partial body
 	panicVal int
 	failBody bool
+	// deep: the panic is raised 300 frames down, so that the stack trace Relay
+	// logs makes the Error record larger than the log buffer pool's limit
+	deep bool
 	// emptyFirst: the handler's first output is a zero-length Write (which
 	// commits the implicit 200 on a real connection); only with status == 0
 	emptyFirst bool
@@ -635,6 +643,24 @@ func (w *world) panicValue(r *request) any {
 	}
 }
 
+// descendAndPanicWithAVeryLongFunctionNameSoThatEveryFrameOfTheTraceIsLongAndTheWholeStackTraceThatRelayPutsIntoItsErrorRecordIsSeveralTimesLargerThanTheSixteenKibibyteLimitOfTheLogBufferPoolWhateverTheGoroutineNumbersAndArgumentAddressesHappenToBeInThisParticularProcessSoThatNoRunSitsOnTheBoundaryOfTheLimit
+// raises v from depth frames down.
+func descendAndPanicWithAVeryLongFunctionNameSoThatEveryFrameOfTheTraceIsLongAndTheWholeStackTraceThatRelayPutsIntoItsErrorRecordIsSeveralTimesLargerThanTheSixteenKibibyteLimitOfTheLogBufferPoolWhateverTheGoroutineNumbersAndArgumentAddressesHappenToBeInThisParticularProcessSoThatNoRunSitsOnTheBoundaryOfTheLimit(depth int, v any) {
+	if depth == 0 {
+		panic(v)
+	}
+	descendAndPanicWithAVeryLongFunctionNameSoThatEveryFrameOfTheTraceIsLongAndTheWholeStackTraceThatRelayPutsIntoItsErrorRecordIsSeveralTimesLargerThanTheSixteenKibibyteLimitOfTheLogBufferPoolWhateverTheGoroutineNumbersAndArgumentAddressesHappenToBeInThisParticularProcessSoThatNoRunSitsOnTheBoundaryOfTheLimit(depth-1, v)
+}
+
+func (w *world) raise(r *request) {
+	v := w.panicValue(r)
+	if r.beh.deep {
+		simrt.Probe("panic_with_long_stack_trace")
+		descendAndPanicWithAVeryLongFunctionNameSoThatEveryFrameOfTheTraceIsLongAndTheWholeStackTraceThatRelayPutsIntoItsErrorRecordIsSeveralTimesLargerThanTheSixteenKibibyteLimitOfTheLogBufferPoolWhateverTheGoroutineNumbersAndArgumentAddressesHappenToBeInThisParticularProcessSoThatNoRunSitsOnTheBoundaryOfTheLimit(300, v)
+	}
+	panic(v)
+}
+
 func (w *world) c15Handler(store *httpd.Store) {
 	r := w.reqOf(store, w.byHdr)
 	r.tid = strings.Clone(store.GetID())
@@ -647,7 +673,7 @@ func (w *world) c15Handler(store *httpd.Store) {
 	}
 	if b.panicAt == 1 {
 		simrt.Probe("panic_before_writing")
-		panic(w.panicValue(r))
+		w.raise(r)
 	}
 	switch {
 	case b.status == 0:
@@ -666,17 +692,17 @@ func (w *world) c15Handler(store *httpd.Store) {
 	}
 	if b.panicAt == 2 {
 		simrt.Probe("panic_after_status")
-		panic(w.panicValue(r))
+		w.raise(r)
 	}
 	if b.body {
 		store.W.Write([]byte("part1 "))
 		if b.panicAt == 3 {
 			simrt.Probe("panic_after_partial_body")
-			panic(w.panicValue(r))
+			w.raise(r)
 		}
 		store.W.Write([]byte("part2"))
 	} else if b.panicAt == 3 {
-		panic(w.panicValue(r))
+		w.raise(r)
 	}
 }
 
@@ -722,6 +748,7 @@ func (w *world) mainC15() {
 			b.panicAt = []int{0, 0, 1, 2, 3}[ch("beh.panic", 5)]
 			if b.panicAt != 0 {
 				b.panicVal = ch("beh.panic_value", 12)
+				b.deep = ch("beh.deep_panic", 5) == 0
 			}
 			b.failBody = ch("beh.client_gone", 6) == 0
 			if b.status == 0 && ch("beh.empty_first_write", 3) == 0 {
